@@ -67,6 +67,8 @@ func parseModes(s string) Modes {
 			m.Termination = true
 		case "probes":
 			m.Probes = true
+		case "nonnil":
+			m.NonNilParams = true
 		}
 	}
 	return m
